@@ -99,8 +99,8 @@ def finish(run, explanation, assumptions, technique, out=print):
         with open(path, "w") as fh:
             json.dump({"property": run.prop, "rule": o["rule"], "key": o["key"], "what": o["what"],
                        "where": o["where"], "detail": o["detail"]}, fh, indent=1, default=str)
-        out("  %s: %s [%s]%s" % (o["key"], o["what"], o["where"],
-                                  ("\n      " + str(o["detail"])) if o["detail"] else ""))
+        out("  %s: %s [%s]%s" % (o["key"], o["what"][:400], o["where"],
+                                  ("\n      " + str(o["detail"])[:400]) if o["detail"] else ""))
         out("VIOLATION property=%s replay=%s" % (run.prop, path))
     distinct = len({o["key"] for o in run.obs})
     samples = []
